@@ -7,7 +7,7 @@ value equality over tree states and is not decided."""
 import ast
 import re
 
-from ..astutil import bind_roles, call_attr, call_recv, calls_in, canonicalise, const_value, norm, walk_own
+from ..astutil import bind_roles, call_attr, call_name, call_recv, calls_in, canonicalise, const_value, norm, walk_own
 from ..cfg import build_cfg
 from ..rules import calling, fn_cfg, k1_before, need
 from ..selftest import Mutant
@@ -227,10 +227,22 @@ def run(ctx):
     fd = repo.func(SH, f"{M}.delete_shelf")
     fd = canonicalise(fd, bind_roles(fd, {"filename": ("assign", "self.get_shelf_filename(shelf_id)")}, f"{SH}:{M}.delete_shelf"))
     ctx.check("S6-only-delete-shelf-deletes", f"{SH}:{M}.delete_shelf", [norm(c) for c in calls_in(fd) if call_attr(c) == "delete"] == ["self.transport.delete(filename)"], "delete_shelf deletes exactly the named shelf's file")
+    # ---- S9: the merge that builds the shelved text aligns lines the way the offered hunks were computed -------------
+    fdiff = repo.func("breezy/diff.py", "internal_diff")
+    dflt = {norm(s_.value).split(".")[-1] for s_ in walk_own(fdiff) if isinstance(s_, ast.Assign) and norm(s_.targets[0]) == "sequence_matcher"}
+    ctx.require(len(dflt) == 1, f"breezy/diff.py:internal_diff: default sequence matcher not found ({sorted(dflt)})")
+    fil = repo.func(SH, "ShelfCreator._inverse_lines") if repo.has(SH, "ShelfCreator._inverse_lines") else None
+    ctx.require(fil is not None, f"{SH}:ShelfCreator._inverse_lines not found")
+    m3 = [c for c in calls_in(fil) if (call_name(c) or norm(c.func)).split(".")[-1] == "Merge3"]
+    ctx.require(len(m3) >= 1, f"{SH}:ShelfCreator._inverse_lines: Merge3(...) call not found")
+    for c in m3:
+        given = [norm(k.value).split(".")[-1] for k in c.keywords if k.arg == "sequence_matcher"] + [norm(a).split(".")[-1] for a in c.args[4:5]]
+        ctx.check("S9-merge-aligns-like-the-diff", f"{SH}:ShelfCreator._inverse_lines", given == sorted(dflt), f"Merge3 is given the matcher the hunk diff uses by default ({sorted(dflt)[0]})", construct=norm(c)[:120], message=f"_inverse_lines merges the selected hunks with {given[0] if given else 'the default difflib matcher'} while the hunks offered to the user are computed with {sorted(dflt)[0]}: on files with repeated lines the two align differently, the shelved text gets conflict markers or misplaced lines and unshelving does not restore the content")
     ctx.sample({"template": tmpl[0], "pattern": pats[0], "metadata_keys": sorted(k.decode() for k in wkeys), "actions": {a: v.get("delete_shelf") for a, v in eff.items()}})
 
 
 MUTANTS = [
+    Mutant("partial-hunk merge falls back to difflib", SH, "            work_lines,\n            sequence_matcher=patiencediff.PatienceSequenceMatcher,\n", "            work_lines,\n", expect="S9-merge-aligns-like-the-diff"),
     Mutant("created entries lose the executable bit", SH, "                    if kind == \"file\" and tree.is_executable(path):\n                        to_transform.set_executability(True, s_trans_id)\n", "", expect="S8-created-entry-keeps-exec-bit"),
     Mutant("shelf base recorded from the working tree's last revision", SH, "        revision_id = self.target_tree.get_revision_id()\n", "        revision_id = self.work_tree.last_revision()\n", expect="S7-base-is-transform-tree"),
     Mutant("neutral: base revision id passed inline", SH, "        revision_id = self.target_tree.get_revision_id()\n        return self._write_shelf(shelf_file, self.shelf_transform, revision_id, message)\n", "        return self._write_shelf(\n            shelf_file, self.shelf_transform, self.target_tree.get_revision_id(), message\n        )\n", neutral=True),
